@@ -9,7 +9,7 @@
    ([DaFuel] when exceeded).  DoEvaluate of one node is [dsl_do], parametrised by the evaluator
    [ev] used for sub-expressions and callee bodies. *)
 From Coq Require Import ZArith List String Ascii Bool.
-From Icv Require Import Dsl.DslDefs Dsl.DslOps.
+From Icv Require Import Dsl.DslDefs Dsl.DslOps Dsl.DslJson.
 Import ListNotations.
 Local Open Scope string_scope.
 Local Open Scope Z_scope.
@@ -94,6 +94,131 @@ Fixpoint dsl_range_list (fuel : nat) (i stop step : Z) : list dsl_val :=
   | S f => if (if 0 <? step then i <? stop else stop <? i) then DvNum i 0 :: dsl_range_list f (i + step) stop step else []
   end.
 
+(* ---------------------------------------------------------------- typeof, union, intersection, match *)
+(* Value::GetReflectionType *)
+Definition dsl_typeof (v : dsl_val) : dsl_type :=
+  match v with
+  | DvEmpty => DtObject
+  | DvNum _ _ => DtNumber
+  | DvBool _ => DtBoolean
+  | DvStr _ => DtString
+  | DvArr _ => DtArray
+  | DvDict _ => DtDictionary
+  | DvNs _ | DvSys | DvJson | DvTypes => DtNamespace
+  | DvFun _ | DvNat _ => DtFunction
+  | DvType _ => DtType
+  | DvRef _ => DtReference
+  end.
+
+(* Value -> Array::Ptr : null pointer for Empty, an exception for scalars ("" included) and other objects *)
+Inductive dsl_aconv := AcNull | AcArr (xs : list dsl_val) | AcErr.
+Definition dsl_to_arrptr (st : dsl_store) (v : dsl_val) : dsl_aconv :=
+  match v with DvEmpty => AcNull | DvArr l => AcArr (dsl_arr st l) | _ => AcErr end.
+
+(* the operands std::sort / std::set / set_intersection may compare with Value::operator< without an exception and with a
+   strict weak order: numbers only, or non-empty strings only (as for Array#sort) *)
+Definition dsl_homog (xs : list dsl_val) : bool :=
+  forallb dsl_is_num xs || forallb (fun v => dsl_is_str v && negb (dsl_is_empty v)) xs.
+
+(* numbers and non-empty strings only, both kinds present: operator< throws for every pair of unlike kinds, and any
+   comparison sort / std::set insertion / set_intersection over such operands performs at least one unlike comparison
+   (the first element of the other kind is compared with the tree's root; the comparison graph of a sort is connected) *)
+Definition dsl_numstr_only (xs : list dsl_val) : bool :=
+  forallb (fun v => dsl_is_num v || (dsl_is_str v && negb (dsl_is_empty v))) xs.
+Definition dsl_mixed_throws (xs : list dsl_val) : bool :=
+  dsl_numstr_only xs && existsb dsl_is_num xs && existsb dsl_is_str xs.
+
+Definition dsl_vcmp (a b : dsl_val) : comparison :=
+  match a, b with
+  | DvNum m1 e1, DvNum m2 e2 => dsl_ncmp m1 e1 m2 e2
+  | DvStr s1, DvStr s2 => String.compare s1 s2
+  | _, _ => Eq
+  end.
+
+(* std::set_intersection on two sorted ranges *)
+Fixpoint dsl_set_isect (fuel : nat) (xs ys : list dsl_val) : list dsl_val :=
+  match fuel with
+  | O => []
+  | S f =>
+      match xs, ys with
+      | x :: xs', y :: ys' =>
+          match dsl_vcmp x y with
+          | Lt => dsl_set_isect f xs' ys
+          | Gt => dsl_set_isect f xs ys'
+          | Eq => x :: dsl_set_isect f xs' ys'
+          end
+      | _, _ => []
+      end
+  end.
+
+(* ScriptUtils::Union: a std::set<Value> of all elements *)
+Fixpoint dsl_union_collect (st : dsl_store) (args : list dsl_val) : option (list dsl_val) :=
+  match args with
+  | [] => Some []
+  | a :: t =>
+      match dsl_to_arrptr st a, dsl_union_collect st t with
+      | AcErr, _ => None
+      | _, None => None
+      | AcNull, Some r => Some r
+      | AcArr xs, Some r => Some (xs ++ r)%list
+      end
+  end.
+
+Inductive dsl_lres := LrOk (xs : list dsl_val) | LrErr | LrAbort (a : dsl_abort).
+
+(* ScriptUtils::Intersection, the loop over arguments 2..n.  [arr1] is the running left operand, [result] the array that
+   is returned when a later argument is null, [aliased] = arr1 and result are the SAME object (from the third argument
+   on): result->Resize(max(len arr1, len arr2)) then pads arr1 itself with nulls when arr2 is longer *)
+Fixpoint dsl_isect_args (st : dsl_store) (rest : list dsl_val) (arr1 result : list dsl_val) (aliased : bool) : dsl_lres :=
+  match rest with
+  | [] => LrOk result
+  | a :: t =>
+      match dsl_sorted arr1 with
+      | None => if dsl_mixed_throws arr1 then LrErr else LrAbort DaDomain
+      | Some s1 =>
+          match dsl_to_arrptr st a with
+          | AcErr => LrErr
+          | AcNull => LrOk result
+          | AcArr ys =>
+              match dsl_sorted ys with
+              | None => if dsl_mixed_throws ys then LrErr else LrAbort DaDomain
+              | Some s2 =>
+                  if aliased && Nat.ltb (List.length s1) (List.length s2) then LrAbort DaIsectAlias
+                  else if negb (Nat.eqb (List.length s1) 0) && negb (Nat.eqb (List.length s2) 0) && negb (dsl_homog (s1 ++ s2)) then
+                    (if dsl_mixed_throws (s1 ++ s2) then LrErr else LrAbort DaDomain)
+                  else let r := dsl_set_isect (S (List.length s1 + List.length s2)) s1 s2 in dsl_isect_args st t r r true
+              end
+          end
+      end
+  end.
+
+(* Utility::Match (third-party/mmatch match()): case-insensitive glob, `*` any sequence, `?` any one character,
+   `\*` and `\?` literal; specification-style matcher (the C code is a backtracking implementation of it) *)
+Definition dsl_ci_eqb (a b : ascii) : bool := Ascii.eqb (dsl_lower_c a) (dsl_lower_c b).
+
+Fixpoint dsl_glob (p : string) : string -> bool :=
+  match p with
+  | EmptyString => fun s => match s with EmptyString => true | _ => false end
+  | String c p' =>
+      if Ascii.eqb c "*" then
+        (fix star (s : string) : bool :=
+           dsl_glob p' s || match s with String _ t => star t | EmptyString => false end)
+      else if Ascii.eqb c "?" then
+        fun s => match s with String _ t => dsl_glob p' t | EmptyString => false end
+      else
+        match p' with
+        | String c2 p'' =>
+            if Ascii.eqb c "\" && (Ascii.eqb c2 "*" || Ascii.eqb c2 "?") then
+              fun s => match s with String d t => dsl_ci_eqb d c2 && dsl_glob p'' t | EmptyString => false end
+            else fun s => match s with String d t => dsl_ci_eqb d c && dsl_glob p' t | EmptyString => false end
+        | EmptyString => fun s => match s with String d t => dsl_ci_eqb d c && dsl_glob p' t | EmptyString => false end
+        end
+  end.
+
+(* C strings and tolower(): only 7-bit text without NUL is followed *)
+Definition dsl_plain7 (s : string) : bool :=
+  negb (dsl_str_any (fun c => let n := N_of_ascii c in (n =? 0)%N || (127 <? n)%N) s).
+
 (* ---------------------------------------------------------------- natives that never call back *)
 Definition dsl_native_simple (st : dsl_store) (n : dsl_native) (self : dsl_val) (args : list dsl_val) : option dsl_out :=
   let a0 := dsl_arg args 0 in
@@ -102,6 +227,14 @@ Definition dsl_native_simple (st : dsl_store) (n : dsl_native) (self : dsl_val) 
       match self with DvArr l => k l (dsl_arr st l) | _ => dsl_err DkType st end in
   let on_dict (k : nat -> list (string * dsl_val) -> dsl_out) : dsl_out :=
       match self with DvDict l => k l (dsl_kv st l) | _ => dsl_err DkType st end in
+  (* static_cast<Namespace::Ptr>(vframe->Self): the frozen built-in namespaces are not followed *)
+  let on_ns (k : nat -> list (string * dsl_val) -> dsl_out) : dsl_out :=
+      match self with
+      | DvNs l => k l (dsl_kv st l)
+      | DvSys | DvJson | DvTypes => (DrAbort DaDomain, st)
+      | _ => dsl_err DkType st
+      end in
+  let of_pres (r : dsl_pres * dsl_store) : dsl_out := (dsl_lift (fst r), snd r) in
   match n with
   (* ---- String ---- *)
   | DnStrLen => Some (dsl_with_str st self (fun s => (DrVal (dsl_numv (String.length s)), st)))
@@ -212,7 +345,7 @@ Definition dsl_native_simple (st : dsl_store) (n : dsl_native) (self : dsl_val) 
   | DnBoolToString =>
       Some (match self with
             | DvBool b => (DrVal (DvStr (if b then "true" else "false")), st)
-            | DvArr _ | DvDict _ | DvNs _ | DvFun _ | DvNat _ | DvSys => dsl_err DkType st
+            | DvArr _ | DvDict _ | DvNs _ | DvFun _ | DvNat _ | DvSys | DvType _ | DvRef _ | DvJson | DvTypes => dsl_err DkType st
             | _ => dsl_with_num st self (fun m _ => (DrVal (DvStr (if m =? 0 then "false" else "true")), st))
             end)
   | DnObjToString => Some (dsl_with_str st self (fun s => (DrVal (DvStr s), st)))
@@ -229,8 +362,9 @@ Definition dsl_native_simple (st : dsl_store) (n : dsl_native) (self : dsl_val) 
       Some (dsl_arity 1 args st
         (match a0 with
          | DvDict l | DvNs l => dsl_new_arr st (map (fun p => DvStr (fst p)) (dsl_kv st l))
-         | DvEmpty | DvArr _ | DvFun _ | DvNat _ => dsl_new_arr st []
-         | DvSys => (DrAbort DaDomain, st)
+         | DvEmpty | DvArr _ | DvFun _ | DvNat _ | DvType _ | DvRef _ => dsl_new_arr st []
+         | DvSys | DvTypes => (DrAbort DaDomain, st)
+         | DvJson => dsl_new_arr st [DvStr "decode"; DvStr "encode"]
          | _ => dsl_err DkType st
          end))
   | DnRange =>
@@ -253,6 +387,111 @@ Definition dsl_native_simple (st : dsl_store) (n : dsl_native) (self : dsl_val) 
   | DnString => Some (dsl_arity 1 args st (dsl_with_str st a0 (fun s => (DrVal (DvStr s), st))))
   | DnNumber => Some (dsl_arity 1 args st (dsl_with_num st a0 (fun m e => (DrVal (DvNum m e), st))))
   | DnBool => Some (dsl_arity 1 args st (DrVal (DvBool (dsl_to_bool st a0)), st))
+  | DnTypeOf => Some (dsl_arity 1 args st (DrVal (DvType (dsl_typeof a0)), st))
+  | DnUnion =>
+      Some (match dsl_union_collect st args with
+            | None => dsl_err DkType st
+            | Some xs =>
+                match xs with
+                | [] | [_] => dsl_new_arr st xs
+                | _ => if dsl_homog xs then
+                         match dsl_sorted xs with
+                         | Some r => dsl_new_arr st (dsl_dedup_sorted st r)
+                         | None => (DrAbort DaDomain, st)
+                         end
+                       else if dsl_mixed_throws xs then dsl_err DkType st
+                       else (DrAbort DaDomain, st)       (* the comparison sequence of the red-black tree decides whether operator< throws *)
+                end
+            end)
+  | DnIntersection =>
+      Some (match args with
+            | [] => dsl_new_arr st []
+            | a :: rest =>
+                match dsl_to_arrptr st a with
+                | AcErr => dsl_err DkType st
+                | AcNull => dsl_new_arr st []
+                | AcArr xs =>
+                    match dsl_isect_args st rest xs [] false with
+                    | LrOk r => dsl_new_arr st r
+                    | LrErr => dsl_err DkType st
+                    | LrAbort r => (DrAbort r, st)
+                    end
+                end
+            end)
+  | DnMatch =>
+      Some (match args with
+            | [] | [_] => dsl_err DkArg st
+            | _ =>
+              let a2 := dsl_arg args 2 in
+              dsl_with_str st a0 (fun pat =>
+                match a1 with
+                | DvDict _ => dsl_err DkType st
+                | _ =>
+                  let with_mode (k : Z -> dsl_out) : dsl_out :=
+                      match args with
+                      | [_; _] => k 0
+                      | _ => dsl_with_int st a2 k
+                      end in
+                  with_mode (fun mode =>
+                    let m1 (text : string) : option bool :=
+                        if dsl_plain7 pat && dsl_plain7 text then Some (dsl_glob pat text) else None in
+                    if dsl_is_obj a1 then
+                      match a1 with
+                      | DvArr l =>
+                          match dsl_arr st l with
+                          | [] => (DrVal (DvBool false), st)
+                          | xs =>
+                              (fix go (xs : list dsl_val) : dsl_out :=
+                                 match xs with
+                                 | [] => (DrVal (DvBool (mode =? 0)), st)
+                                 | x :: t =>
+                                     dsl_with_str st x (fun text =>
+                                       match m1 text with
+                                       | None => (DrAbort DaDomain, st)
+                                       | Some r =>
+                                           if (mode =? 1) && r then (DrVal (DvBool true), st)
+                                           else if (mode =? 0) && negb r then (DrVal (DvBool false), st)
+                                           else go t
+                                       end)
+                                 end) xs
+                          end
+                      | _ => dsl_err DkType st                 (* bad_cast to Array::Ptr *)
+                      end
+                    else
+                      dsl_with_str st a1 (fun text =>
+                        match m1 text with Some r => (DrVal (DvBool r), st) | None => (DrAbort DaDomain, st) end))
+                end)
+            end)
+  (* ---- Namespace ---- *)
+  | DnNsSet => Some (dsl_arity 2 args st (dsl_with_str st a0 (fun k => on_ns (fun l _ => of_pres (dsl_ns_set st l k a1 false)))))
+  | DnNsGet => Some (dsl_arity 1 args st (dsl_with_str st a0 (fun k => on_ns (fun _ kv =>
+                 match dsl_dget k kv with Some v => (DrVal v, st) | None => dsl_err DkName st end))))
+  | DnNsRemove => Some (dsl_arity 1 args st (dsl_with_str st a0 (fun k => on_ns (fun l _ => of_pres (dsl_ns_remove st l k)))))
+  | DnNsContains => Some (dsl_arity 1 args st (dsl_with_str st a0 (fun k => on_ns (fun _ kv => (DrVal (DvBool (dsl_dhas k kv)), st)))))
+  | DnNsKeys => Some (on_ns (fun _ kv => dsl_new_arr st (map (fun p => DvStr (fst p)) kv)))
+  | DnNsValues => Some (on_ns (fun _ kv => dsl_new_arr st (map snd kv)))
+  (* ---- Reference ---- *)
+  | DnRefGet =>
+      Some (dsl_arity 0 args st
+        (match self with
+         | DvRef l => match dsl_sget st l with
+                      | Some (DoRef parent idx) => dsl_ret (dsl_getfield st parent idx) st
+                      | _ => (DrAbort DaDomain, st)
+                      end
+         | _ => dsl_err DkType st
+         end))
+  | DnRefSet =>
+      Some (dsl_arity 1 args st
+        (match self with
+         | DvRef l => match dsl_sget st l with
+                      | Some (DoRef parent idx) => of_pres (dsl_setfield st parent idx a0)
+                      | _ => (DrAbort DaDomain, st)
+                      end
+         | _ => dsl_err DkType st
+         end))
+  (* ---- Json ---- *)
+  | DnJsonEncode => Some (dsl_arity 1 args st (dsl_json_encode st a0))
+  | DnJsonDecode => Some (dsl_arity 1 args st (dsl_with_str st a0 (fun s => dsl_json_decode st s)))
   | DnArrMap | DnArrReduce | DnArrFilter | DnArrAny | DnArrAll => None
   end.
 
@@ -431,8 +670,30 @@ Fixpoint dsl_eval_closed (ev : dsl_evaluator) (fr : dsl_frame) (st : dsl_store) 
       end
   end.
 
-(* ---------------------------------------------------------------- GetReference *)
-Inductive dsl_refres := RrOk (parent : dsl_val) (idx : string) (st : dsl_store) | RrNone | RrOut (o : dsl_out).
+(* ---------------------------------------------------------------- variables and `using` imports *)
+(* VMOps::FindVarImportRef over the imports added by `using` (textual order); the built-in imports System, Types follow.
+   The result code of an import expression is ignored; its value is converted to Object::Ptr: a scalar throws, null gives a
+   null pointer that is dereferenced (F-C15-f). *)
+Inductive dsl_impres := IrFound (parent : dsl_val) (st : dsl_store) | IrNone (st : dsl_store) | IrOut (o : dsl_out).
+
+Fixpoint dsl_find_import (ev : dsl_evaluator) (fr : dsl_frame) (st : dsl_store) (imps : list dsl_expr) (x : string) : dsl_impres :=
+  match imps with
+  | [] => IrNone st
+  | i :: t =>
+      let '(r, st1) := ev fr st i in
+      let go (v : dsl_val) : dsl_impres :=
+          match v with
+          | DvEmpty => IrOut (DrAbort DaNullImport, st1)
+          | DvFun _ | DvNat _ => IrOut (DrAbort DaDomain, st1)
+          | DvNum _ _ | DvBool _ | DvStr _ => IrOut (DrErr DkType, st1)
+          | _ => if dsl_has_own st1 v x then IrFound v st1 else dsl_find_import ev fr st1 t x
+          end in
+      match r with
+      | DrVal v | DrReturn v => go v
+      | DrBreak | DrContinue => go DvEmpty
+      | o => IrOut (o, st1)
+      end
+  end.
 
 Definition dsl_self_has (fr : dsl_frame) (st : dsl_store) (x : string) : bool :=
   match dfr_self fr with
@@ -441,16 +702,69 @@ Definition dsl_self_has (fr : dsl_frame) (st : dsl_store) (x : string) : bool :=
   | _ => false
   end.
 
+(* VariableExpression::DoEvaluate: locals, own field of Self, imports, globals *)
+Definition dsl_var_read (ev : dsl_evaluator) (fr : dsl_frame) (st : dsl_store) (imps : list dsl_expr) (x : string) : dsl_out :=
+  match dsl_dget x (dsl_kv st (dfr_locals fr)) with
+  | Some v => (DrVal v, st)
+  | None =>
+      if dsl_self_has fr st x then dsl_ret (dsl_getfield st (dfr_self fr) x) st
+      else match dsl_find_import ev fr st imps x with
+           | IrFound p st1 => dsl_ret (dsl_getfield st1 p x) st1
+           | IrOut o => o
+           | IrNone st1 =>
+               match dsl_sysval x with
+               | Some v => (DrVal v, st1)
+               | None =>
+                   match dsl_types x with
+                   | Some t => (DrVal (DvType t), st1)
+                   | None => match dsl_dget x (dsl_kv st1 dsl_globals_loc) with
+                             | Some v => (DrVal v, st1)
+                             | None => dsl_err DkName st1
+                             end
+                   end
+               end
+           end
+  end.
+
+(* ---------------------------------------------------------------- GetReference *)
+Inductive dsl_refres := RrOk (parent : dsl_val) (idx : string) (st : dsl_store) | RrNone | RrOut (o : dsl_out).
+
+(* VariableExpression::GetReference *)
+Definition dsl_var_ref (ev : dsl_evaluator) (fr : dsl_frame) (st : dsl_store) (imps : list dsl_expr) (x : string) : dsl_refres :=
+  if dsl_dhas x (dsl_kv st (dfr_locals fr)) then RrOk (DvDict (dfr_locals fr)) x st
+  else if dsl_self_has fr st x then RrOk (dfr_self fr) x st
+  else match dsl_find_import ev fr st imps x with
+       | IrFound p st1 => RrOk p x st1
+       | IrOut o => RrOut o
+       | IrNone st1 =>
+           match dsl_sysval x with
+           | Some _ => RrOk DvSys x st1
+           | None =>
+               match dsl_types x with
+               | Some _ => RrOk DvTypes x st1
+               | None => if dsl_dhas x (dsl_kv st1 dsl_globals_loc) then RrOk (DvNs dsl_globals_loc) x st1
+                         else RrOk (dfr_self fr) x st1
+               end
+           end
+       end.
+
 Fixpoint dsl_ref (ev : dsl_evaluator) (fr : dsl_frame) (st : dsl_store) (e : dsl_expr) (init : bool) : dsl_refres :=
   match e with
-  | DeVar x =>
-      if dsl_dhas x (dsl_kv st (dfr_locals fr)) then RrOk (DvDict (dfr_locals fr)) x st
-      else if dsl_self_has fr st x then RrOk (dfr_self fr) x st
-      else match dsl_sys x with
-           | Some _ => RrOk DvSys x st
-           | None => if dsl_dhas x (dsl_kv st dsl_globals_loc) then RrOk (DvNs dsl_globals_loc) x st
-                     else RrOk (dfr_self fr) x st
-           end
+  | DeVar x => dsl_var_ref ev fr st [] x
+  | DeVarU imps x => dsl_var_ref ev fr st imps x
+  | DeDeref a =>
+      (* DerefExpression::GetReference: the operand must evaluate to a Reference *)
+      match ev fr st a with
+      | (DrVal (DvRef l), st1) =>
+          match dsl_sget st1 l with
+          | Some (DoRef p i) => RrOk p i st1
+          | _ => RrOut (DrAbort DaDomain, st1)
+          end
+      | (DrVal _, st1) => RrOut (DrErr DkType, st1)           (* "Invalid reference specified." (null included: fix 45d9f22) *)
+      | (DrErr k, st1) => RrOut (DrErr k, st1)
+      | (DrAbort r, st1) => RrOut (DrAbort r, st1)
+      | (_, st1) => RrOut (DrAbort DaDomain, st1)             (* a result code other than OK: returns false after side effects - not followed *)
+      end
   | DeIndex a i =>
       let with_parent (parent : dsl_val) (st1 : dsl_store) : dsl_refres :=
           match ev fr st1 i with
@@ -538,23 +852,36 @@ Fixpoint dsl_for_keys (ev : dsl_evaluator) (fr : dsl_frame) (st : dsl_store) (k 
       end
   end.
 
+(* VMOps::ConstructorCall for the scalar types; instantiation of the other types is not modelled *)
+Definition dsl_ctor (st : dsl_store) (t : dsl_type) (args : list dsl_val) : dsl_out :=
+  match t with
+  | DtString =>
+      match args with
+      | [] => (DrVal (DvStr ""), st)
+      | [a] => dsl_with_str st a (fun s => (DrVal (DvStr s), st))
+      | _ => dsl_err DkArg st
+      end
+  | DtNumber =>
+      match args with
+      | [] => (DrVal (DvNum 0 0), st)
+      | [a] => dsl_with_num st a (fun m e => (DrVal (DvNum m e), st))
+      | _ => dsl_err DkArg st
+      end
+  | DtBoolean =>
+      match args with
+      | [] => (DrVal (DvNum 0 0), st)                   (* sic: `return 0` *)
+      | [a] => (DrVal (DvBool (dsl_to_bool st a)), st)
+      | _ => dsl_err DkArg st
+      end
+  | _ => (DrAbort DaDomain, st)
+  end.
+
 (* ---------------------------------------------------------------- DoEvaluate *)
 Definition dsl_do (L : nat) (ev : dsl_evaluator) (fr : dsl_frame) (st : dsl_store) (e : dsl_expr) : dsl_out :=
   match e with
   | DeLit v => (DrVal v, st)
-  | DeVar x =>
-      match dsl_dget x (dsl_kv st (dfr_locals fr)) with
-      | Some v => (DrVal v, st)
-      | None =>
-          if dsl_self_has fr st x then dsl_ret (dsl_getfield st (dfr_self fr) x) st
-          else match dsl_sys x with
-               | Some n => (DrVal (DvNat n), st)
-               | None => match dsl_dget x (dsl_kv st dsl_globals_loc) with
-                         | Some v => (DrVal v, st)
-                         | None => dsl_err DkName st
-                         end
-               end
-      end
+  | DeVar x => dsl_var_read ev fr st [] x
+  | DeVarU imps x => dsl_var_read ev fr st imps x
   | DeThis => (DrVal (dfr_self fr), st)
   | DeLocals => (DrVal (DvDict (dfr_locals fr)), st)
   | DeGlobals => (DrVal (DvNs dsl_globals_loc), st)
@@ -592,6 +919,11 @@ Definition dsl_do (L : nat) (ev : dsl_evaluator) (fr : dsl_frame) (st : dsl_stor
           | DvFun _ | DvNat _ =>
               match dsl_eval_list ev fr st1 args with
               | (DrVal _, st2, vs) => dsl_invoke ev L st2 vfunc self vs
+              | (o, st2, _) => (o, st2)
+              end
+          | DvType t =>
+              match dsl_eval_list ev fr st1 args with
+              | (DrVal _, st2, vs) => dsl_ctor st2 t vs
               | (o, st2, _) => (o, st2)
               end
           | _ => dsl_err DkType st1
@@ -669,6 +1001,33 @@ Definition dsl_do (L : nat) (ev : dsl_evaluator) (fr : dsl_frame) (st : dsl_stor
       | (DrVal _, st1, kvs) => let '(st2, l) := dsl_alloc st1 (DoFun params kvs body) in (DrVal (DvFun l), st2)
       | (o, st1, _) => (o, st1)
       end
+  | DeRef a =>
+      match dsl_ref ev fr st a false with
+      | RrOk parent idx st1 =>
+          if dsl_is_obj parent then let '(st2, l) := dsl_alloc st1 (DoRef parent idx) in (DrVal (DvRef l), st2)
+          else dsl_err DkType st1
+      | RrNone => dsl_err DkType st
+      | RrOut o => o
+      end
+  | DeDeref a =>
+      dsl_bind (ev fr st a) (fun v st1 =>
+        match v with
+        | DvRef l =>
+            match dsl_sget st1 l with
+            | Some (DoRef p i) => dsl_ret (dsl_getfield st1 p i) st1       (* Reference::Get: parent->GetFieldByName *)
+            | _ => (DrAbort DaDomain, st1)
+            end
+        | _ => dsl_err DkType st1
+        end)
+  | DeConst x a =>
+      dsl_bind (ev fr st a) (fun v st1 =>
+        let '(p, st2) := dsl_ns_set st1 dsl_globals_loc x v true in
+        match p with PrVal _ => (DrVal DvEmpty, st2) | o => (dsl_lift o, st2) end)
+  | DeNsDef body =>
+      (* new Namespace(true); ScriptFrame innerFrame(true, ns): fresh locals, this = the namespace, depth inherited *)
+      let '(st1, l) := dsl_alloc st (DoNs true [] []) in
+      let '(st2, loc) := dsl_alloc st1 (DoDict []) in
+      dsl_bind (ev {| dfr_locals := loc; dfr_self := DvNs l |} st2 body) (fun _ st3 => (DrVal (DvNs l), st3))
   end.
 
 (* Expression::Evaluate: IncreaseStackDepth, then DoEvaluate.  g = remaining depth budget. *)
@@ -681,7 +1040,7 @@ Fixpoint dsl_eval (L : nat) (g : nat) : dsl_evaluator :=
 
 (* ---------------------------------------------------------------- a whole program *)
 (* fresh environment: globals namespace at 0, `this` dictionary at 1, locals dictionary at 2 *)
-Definition dsl_init_store : dsl_store := [DoNs []; DoDict []; DoDict []].
+Definition dsl_init_store : dsl_store := [DoNs false [] []; DoDict []; DoDict []].
 Definition dsl_init_frame : dsl_frame := {| dfr_locals := 2; dfr_self := DvDict 1 |}.
 
 Definition dsl_run (L : nat) (prog : dsl_expr) : dsl_out :=
@@ -697,6 +1056,8 @@ Definition dsl_show_res (o : dsl_out) : string :=
   | DrAbort DaFuel => "abort:fuel"
   | DrAbort DaDomain => "abort:domain"
   | DrAbort DaCycle => "abort:cycle"
+  | DrAbort DaNullImport => "abort:nullimport"
+  | DrAbort DaIsectAlias => "abort:isectalias"
   end.
 
 Definition dsl_observe (o : dsl_out) : list string :=
